@@ -409,6 +409,7 @@ pub fn run(cfg: &Cfg) -> Report {
     });
     self_tests(&mut stats);
     let sorted = serde_json::from_str::<Value>(r#"{"b":1,"a":2}"#).map(|v| v.to_string()).ok().as_deref() == Some(r#"{"a":2,"b":1}"#);
+    crate::sanitize::passes_for("C26", cfg, &mut stats);
     Report {
         prop: "C26",
         level: "exploration",
